@@ -656,6 +656,7 @@ func (a *analysis) checkReconf(x *verifkit.Exec) {
 	processedBy := map[recKey][]int{}
 	deadRunAtCall := map[string]bool{}
 	srcOpen := 0
+	runEnding := false
 	floor := 0       // generation every record processed from now on must at least have
 	var floorSeq int // set when a reconfigure returned nil
 	failedOnly := true
@@ -679,10 +680,14 @@ func (a *analysis) checkReconf(x *verifkit.Exec) {
 			}
 		case isSource(e.Comp) && e.Kind == "open":
 			srcOpen++
+			runEnding = false
 		case isSource(e.Comp) && e.Kind == "teardown":
 			srcOpen--
+			runEnding = true
+		case e.Kind == "teardown" || e.Kind == "openfail" || e.Kind == "runerr" || e.Kind == "readerr":
+			runEnding = true // a node of the run has stopped or failed: the run is on its way out
 		case e.Comp == "ctl" && e.Kind == "call" && strings.HasPrefix(e.Arg, "reconf"):
-			deadRunAtCall[e.Arg] = srcOpen <= 0
+			deadRunAtCall[e.Arg] = srcOpen <= 0 || runEnding
 		case e.Comp == "ctl" && (e.Kind == "reconfA.ret" || e.Kind == "reconfB.ret"):
 			if e.Arg == "nil" {
 				failedOnly = false
